@@ -31,8 +31,13 @@ def gen_case(rng):
     T = rng.choice([3, 5, 8])
     frames, ics, pcs = [], [], []
     pc_kind = rng.below(3)          # none / same keys / different key sets
+    common = np.linspace(0, rng.choice([1.0, 3.0]), T)
     for n in range(N):
         t = np.sort(np.array([0.0] + [round(rng.uniform() * 4 + 0.05, 3) for _ in range(T - 1)])) if rng.chance(1, 2) else np.linspace(0, rng.choice([1.0, 3.0]), T)
+        if spec.get("rules"):
+            # (the effect of a dt rule inside the ODE solver depends on the solver's step bound, which is derived from the
+            # time grids: with one common grid the single-trajectory runs of the composition oracle see the same bound)
+            t = common
         cols = {"time": t}
         for s in ["A", "B", "C"]:
             cols[s] = np.array([round(rng.uniform() * 10, 3) for _ in range(T)])
